@@ -16,6 +16,7 @@ import numpy as np
 from vf import core
 from vf.core import fs
 from extract import lincomb as extract_lincomb
+from extract import lincomb_front as extract_front
 
 RULE = ('lincomb: enumerated regimes(size vs thresholds) x dtype x layout x 5 alias patterns x '
         'scalar classes for a and b, values on the dyadic grid k/8; element ops: operator x '
@@ -205,7 +206,11 @@ def lincomb_cases(ctx, small, medium):
     # ravel order matter only here
     large_keep += [(medium, dt, 'mixed', al, 'few') for dt in ('float64', 'float32')
                    for al in ('none', 'x1x2', 'outx1', 'outx2')]
-    large_keep += large_plans[:(6 if quick else 60)]
+    # a strided `out` in the large regime for every alias pattern (a wrong BLAS applicability
+    # decision loses the result only here)
+    large_keep += [(medium, 'float64', 'strided', al, 'few') for al in ALIASES]
+    large_keep += [(medium + 1, 'complex64', 'strided', 'x1x2', 'few')]
+    large_keep += large_plans[:(3 if quick else 60)]
     if quick:
         # keep every (regime, dtype, layout, alias) but sample sizes inside the regime
         keep = {}
@@ -254,6 +259,57 @@ def lincomb_cases(ctx, small, medium):
                        vseed=rng.getrandbits(32))
 
 
+SCAL_REP = {'0': 0, '1': 1, '-1': -1, 'gen': 2, 'gen2': -2}
+
+
+def leaf_plans(ctx, small, medium):
+    """One large case per leaf of the extracted dispatch and per large-size regime: the
+    driver is asked (on 1-entry buffers) which leaf each (alias, a, b) class reaches."""
+    import odl
+    combos = [(al, ka, kb) for al in ALIASES for ka in SCAL_REP for kb in SCAL_REP]
+    lines = []
+    for al, ka, kb in combos:
+        ids = ALIASES[al]
+        lines.append('lincomb size={} lay=111111 dd=0 nb=0 tb=0 x1={} x2={} out={} a={} b={} n=1 '
+                     'm0=1 m1=1 m2=1'.format(medium, ids[0], ids[1], ids[2],
+                                             SCAL_REP[ka], SCAL_REP[kb]))
+    outs = core.run_driver('C01', lines)
+    chosen = {}
+    for (al, ka, kb), ans in zip(combos, outs):
+        f = dict(t.split('=', 1) for t in ans.split()[1:]) if ans.startswith('ok ') else {}
+        leaf = f.get('leaf')
+        if leaf is not None:
+            chosen.setdefault(leaf, (al, ka, kb))
+    ctx.extra['dispatch_leaves'] = sorted(chosen)
+    variants = [('float64', 'C')]                       # BLAS regime
+    if not ctx.quick:
+        variants += [('float64', 'strided'), ('complex128', 'F'), ('int64', 'C')]  # + fallback
+    for leaf, (al, ka, kb) in sorted(chosen.items()):
+        for dt, layout in variants:
+            shape = (medium // 4, 4) if medium % 4 == 0 else (medium,)
+            yield dict(kind='lincomb', size=medium, shape=shape, dtype=dt, layout=layout,
+                       alias=al, a=SCAL_REP[ka], b=SCAL_REP[kb], ca=ka.rstrip('2'),
+                       cb=kb.rstrip('2'), space=odl.tensor_space(shape, dtype=dt),
+                       vseed=ctx.rng.getrandbits(32))
+    # the same leaves in the medium (fallback) regime are cheap: all of them, always
+    for leaf, (al, ka, kb) in sorted(chosen.items()):
+        yield dict(kind='lincomb', size=small, shape=(small,), dtype='float64', layout='C',
+                   alias=al, a=SCAL_REP[ka], b=SCAL_REP[kb], ca=ka.rstrip('2'),
+                   cb=kb.rstrip('2'), space=odl.tensor_space((small,), dtype='float64'),
+                   vseed=ctx.rng.getrandbits(32))
+
+
+def EXPECTED_BRANCHES(ctx):
+    leaves = ctx.extra.get('dispatch_leaves', [])
+    exp = ['leaf/small/direct']
+    for leaf in leaves:
+        if leaf == 'zeroguard':
+            exp += ['leaf/small/zeroguard', 'leaf/fallback/zeroguard', 'leaf/blas/zeroguard']
+        else:
+            exp += ['leaf/fallback/' + leaf, 'leaf/blas/' + leaf]
+    return exp
+
+
 def run_lincomb_case(c, small, medium):
     """Run the real code; returns (line for the model, impl outcome dict, oracle verdict)."""
     import random
@@ -288,17 +344,39 @@ def run_lincomb_case(c, small, medium):
             elems[bid].data[last] = np.inf
     pre = {bid: wide(vals[bid]) for bid in elems}
     pre_raw = {bid: wide(elems[bid].data) for bid in elems}
-    blas_ok = all(e.data.flags.c_contiguous for e in elems.values()) or \
-        all(e.data.flags.f_contiguous for e in elems.values())
-    blas_ok = blas_ok and dtype in (np.dtype('float32'), np.dtype('float64'),
-                                    np.dtype('complex64'), np.dtype('complex128'))
+    # what `_blas_is_applicable` and `ravel` see, read from the actual arrays
+    arrs = [x1.data, x2.data, out.data]
+    lay = ''.join('{}{}'.format(int(arr.flags.c_contiguous), int(arr.flags.f_contiguous))
+                  for arr in arrs)
+    dd = int(any(arr.dtype != arrs[0].dtype for arr in arrs[1:]))
+    # documented: BLAS is for single and double precision float or complex data only
+    nb = int(dtype not in [np.dtype(t) for t in ('float32', 'float64', 'complex64',
+                                                 'complex128')])
+    tb = int(any(arr.size > 2 ** 31 - 1 for arr in arrs))
+    try:
+        import odl.space.npy_tensors as _nt
+        real_blas = int(bool(_nt._blas_is_applicable(*arrs)))
+    except Exception as e:  # noqa
+        real_blas = 'err:' + type(e).__name__
     a, b = c['a'], c['b']
     mem_for_model = {bid: (vals[bid] if not (nan_out and bid == ids[2]) else
                            np.zeros(size, dtype=dtype)) for bid in elems}
-    line = 'lincomb size={} blas={} x1={} x2={} out={} a={} b={} n={} m0={} m1={} m2={}'.format(
-        size, int(blas_ok), ids[0], ids[1], ids[2], cs(a), cs(b), size,
-        cl8(mem_for_model.get(0, [])), cl8(mem_for_model.get(1, [])),
-        cl8(mem_for_model.get(2, [])))
+    # the model is entry-wise: for big arrays it is sent a sample of the entries (the oracle
+    # below still checks every entry of the real result)
+    if size <= 400:
+        sidx = np.arange(size)
+    else:
+        sidx = np.unique(np.concatenate([np.arange(48), np.arange(size - 48, size),
+                                         np.array([r.randrange(size) for _ in range(16)])]))
+    c['_sidx'] = sidx
+
+    def smp(bid):
+        v = mem_for_model.get(bid)
+        return cl8(np.asarray(v).ravel()[sidx]) if v is not None else '-'
+    line = ('lincomb size={} lay={} dd={} nb={} tb={} x1={} x2={} out={} a={} b={} n={} '
+            'm0={} m1={} m2={}').format(size, lay, dd, nb, tb, ids[0], ids[1], ids[2], cs(a),
+                                        cs(b), len(sidx), smp(0), smp(1), smp(2))
+    c['_real_blas'] = real_blas
     try:
         ret = space.lincomb(a, x1, b, x2, out=out)
         status = 'ok'
@@ -343,7 +421,7 @@ def run_lincomb_case(c, small, medium):
 def compare_lincomb(ctx, cases, outs, small, medium):
     for (c, line, status, post, problems, nontrivial), ans in zip(cases, outs):
         desc = {k: (str(v) if k in ('a', 'b', 'shape') else v) for k, v in c.items()
-                if k != 'space'}
+                if k != 'space' and not k.startswith('_')}
         reg = regime_of(c['size'], small, medium)
         sig = ('lincomb', reg, c['dtype'], c['layout'], c['alias'], c['ca'], c['cb'])
         ctx.case(sig if nontrivial else None,
@@ -361,10 +439,17 @@ def compare_lincomb(ctx, cases, outs, small, medium):
             ctx.disagree(desc, status, 'ok')
             continue
         fields = dict(t.split('=', 1) for t in ans.split()[1:])
+        ctx.hit('leaf/{}/{}'.format(fields.get('reg'), fields.get('leaf')))
+        # the extracted `_blas_is_applicable` (evaluated by the model on the descriptor read
+        # from the arrays) vs the real function on the same arrays
+        if str(c.get('_real_blas')) != fields.get('blas'):
+            ctx.disagree(desc, '_blas_is_applicable = {}'.format(c.get('_real_blas')),
+                         'model blas = {}'.format(fields.get('blas')), stream='blas-predicate')
+        sidx = c['_sidx']
         for bid in post:
             mv = parse_wide(fields['m{}'.format(bid)])
-            if not np.array_equal(mv, post[bid]):
-                ctx.disagree(desc, 'buffer {} = {}'.format(bid, post[bid][:6]),
+            if not np.array_equal(mv, post[bid][sidx]):
+                ctx.disagree(desc, 'buffer {} = {}'.format(bid, post[bid][sidx][:6]),
                              'buffer {} = {}'.format(bid, mv[:6]))
                 break
 
@@ -514,6 +599,10 @@ def elem_ops():
         ('imuls', 'xc', imuls, 'muls'), ('idivs', 'xc/', idivs, 'divs'),
         ('ipow2', 'x', ipow(2), 'pow2'), ('ipow3', 'x', ipow(3), 'pow3'),
         ('ipow5', 'x', ipow(5), 'pow5'), ('ipow1', 'x', ipow(1), 'pow1'),
+        ('ipow0', 'x', ipow(0), 'pow0'), ('ipow4', 'x', ipow(4), 'pow4'),
+        ('ipow6', 'x', ipow(6), 'pow6'), ('ipow7', 'x', ipow(7), 'pow7'),
+        ('ipow-1', 'x/', ipow(-1), 'pow-1'), ('ipow-2', 'x/', ipow(-2), 'pow-2'),
+        ('pow-1', 'x/', lambda x, y, c: x ** -1, 'pow-1'),
         ('pow2', 'x', lambda x, y, c: x ** 2, 'pow2'),
         ('pow3', 'x', lambda x, y, c: x ** 3, 'pow3'),
         ('sp_lincomb', 'xycd', None, 'lincomb'),
@@ -539,6 +628,19 @@ def elem_ops():
         ('div_l', 'xl/', lambda x, y, c: x / tolist(y), 'div'),
         ('iadd_l', 'xl', lambda x, y, c: iadd(x, tolist(y), c), 'add'),
         ('isub_l', 'xl', lambda x, y, c: isub(x, tolist(y), c), 'sub'),
+        # power-space broadcasting: other is an element of space[0]
+        ('b_add', 'xb', lambda x, y, c: x + y, 'add'),
+        ('b_radd', 'xb', lambda x, y, c: y + x, 'add'),
+        ('b_sub', 'xb', lambda x, y, c: x - y, 'sub'),
+        ('b_rsub', 'xb', lambda x, y, c: y - x, 'rsub'),
+        ('b_mul', 'xb', lambda x, y, c: x * y, 'mul'),
+        ('b_rmul', 'xb', lambda x, y, c: y * x, 'mul'),
+        ('b_div', 'xb/', lambda x, y, c: x / y, 'div'),
+        ('b_rdiv', 'x/b', lambda x, y, c: y / x, 'rdiv'),
+        ('b_iadd', 'xb', lambda x, y, c: iadd(x, y, c), 'add'),
+        ('b_isub', 'xb', lambda x, y, c: isub(x, y, c), 'sub'),
+        ('b_imul', 'xb', lambda x, y, c: imul(x, y, c), 'mul'),
+        ('b_idiv', 'xb/', lambda x, y, c: idiv(x, y, c), 'div'),
         ('zero', '0', lambda x, y, c: x.space.zero(), 'zero'),
         ('one', '0', lambda x, y, c: x.space.one(), 'one'),
     ]
@@ -560,9 +662,9 @@ def oracle_elem(spec, X, Y, c, d):
 
     def cpow(p, n):
         r = (Fraction(1), Fraction(0))
-        for _ in range(n):
+        for _ in range(abs(n)):
             r = cmul(r, p)
-        return r
+        return r if n >= 0 else cdiv((Fraction(1), Fraction(0)), r)
     neg = lambda p: (-p[0], -p[1])  # noqa
     if spec == 'add':
         return [cadd(u, v) for u, v in zip(X, Y)]
@@ -623,6 +725,8 @@ def spec_line(spec, X, Y, c, d):
     if spec == 'one':
         return 'elem op=adds x={} c=1'.format(l([(Fraction(0), Fraction(0))] * len(X)))
     if spec.startswith('pow'):
+        if int(spec[3:]) < 0:
+            return 'ipow p={} n={} x={}'.format(spec[3:], len(X), l(X))
         return 'elem op=pow p={} x={}'.format(spec[3:], l(X))
     if spec == 'lincomb':
         return 'elem op=lincomb x={} y={} c={} d={}'.format(l(X), l(Y), s(c), s(d))
@@ -646,12 +750,23 @@ def elem_cases(ctx):
         is_c = np.issubdtype(dt, np.complexfloating)
         for name, kind, action, spec in ops:
             if is_int and ('/' in kind):
-                continue  # true division is not closed on integer spaces (NumPy refuses)
+                continue
+            if is_int and name in ('ipow6', 'ipow7'):
+                pass  # true division is not closed on integer spaces (NumPy refuses)
             for rep in range(reps):
-                need_nz_y = kind in ('xy/', 'xx/', 'xl/')
-                need_nz_x = kind in ('x/c', 'xx/', 'x/l')
-                x = rand_elem(space, rng, nonzero=need_nz_x, tiny=('pow' in name))
-                y = x if kind.startswith('xx') else rand_elem(space, rng, nonzero=need_nz_y)
+                need_nz_y = kind in ('xy/', 'xx/', 'xl/', 'xb/')
+                need_nz_x = kind in ('x/c', 'xx/', 'x/l', 'x/b', 'x/')
+                bcast = kind in ('xb', 'xb/', 'x/b')
+                if bcast:
+                    import odl
+                    if not (isinstance(space, odl.ProductSpace) and space.is_power_space and
+                            not isinstance(space[0], odl.ProductSpace)):
+                        continue
+                x = rand_elem(space, rng, nonzero=need_nz_x, tiny=('pow' in name and not need_nz_x))
+                if bcast:
+                    y = rand_elem(space[0], rng, nonzero=need_nz_y)
+                else:
+                    y = x if kind.startswith('xx') else rand_elem(space, rng, nonzero=need_nz_y)
                 if is_int:
                     c, d = rng.choice([0, 1, -1, 2, -3]), rng.choice([0, 1, -1, 2])
                 elif is_c and rng.random() < 0.5:
@@ -667,10 +782,12 @@ def elem_cases(ctx):
 def run_elem_case(c):
     x, y, space = c['x'], c['y'], c['sp']
     X = exact_list(flat(x))
-    Y = exact_list(flat(y))
+    bcast = c['okind'] in ('xb', 'xb/', 'x/b')
+    Y = exact_list(np.tile(flat(y), len(space))) if bcast else exact_list(flat(y))
     fc, fd = fval(c['c']), fval(c['d'])
     xs, ys = x.copy(), y.copy()
-    in_place = c['op'].startswith('i') or c['op'] in ('assign', 'set_zero')
+    in_place = c['op'].startswith('i') or c['op'].startswith('b_i') or \
+        c['op'] in ('assign', 'set_zero')
     try:
         if c['op'] == 'sp_lincomb':
             res = space.lincomb(c['c'], x, c['d'], y)
@@ -694,11 +811,15 @@ def run_elem_case(c):
                 bad = [i for i, (p, q) in enumerate(zip(R, exp)) if p != q]
                 problems.append('entry-wise result wrong at {} entries, first {}: got {} '
                                 'expected {}'.format(len(bad), bad[0], R[bad[0]], exp[bad[0]]))
-        if in_place and res is not x:
+        if in_place and res is not x and not bcast:
             problems.append('in-place operator returned a different object')
+        if in_place and bcast and exact_list(flat(x)) != exp:
+            # power-space broadcasting returns a new wrapper around the same parts: the
+            # object the caller holds must nevertheless have been updated in place
+            problems.append('broadcast in-place operator did not update the original object')
         if not in_place and exact_list(flat(x)) != X:
             problems.append('left operand modified by an out-of-place operation')
-        if y is not x and exact_list(flat(y)) != Y:
+        if y is not x and exact_list(np.tile(flat(y), len(space)) if bcast else flat(y)) != Y:
             problems.append('right operand modified')
     nontrivial = any(v != (0, 0) for v in exp)
     return spec_line(c['spec'], X, Y, fc, fd), status, R, problems, nontrivial
@@ -725,7 +846,7 @@ def stmt_line(c, X, Y, fc):
     """Protocol line for the statement-level model of the operator (Model/ElemOps.lean)."""
     name = c['op']
     if name.startswith('ipow') or name.startswith('pow'):
-        return 'ipow p={} n={} x={}'.format(name.lstrip('ipow'), len(X), lv(X))
+        return 'ipow p={} n={} x={}'.format(name.replace('ipow', '').replace('pow', ''), len(X), lv(X))
     mop = MODEL_OP.get(name)
     if mop is None:
         return None
@@ -827,7 +948,7 @@ def front_cases(ctx):
                 continue
             if not x2_given and not x2_in:
                 continue
-            if rng.random() < (0.7 if ctx.quick else 0.0):
+            if sname != 'rn4' and rng.random() < (0.7 if ctx.quick else 0.0):
                 continue
             yield dict(kind='front', space=sname, sp=sp, other=other, bits=bits)
 
@@ -897,10 +1018,81 @@ def run_front(ctx):
             ctx.disagree(desc, status, ans)
 
 
+def run_special(ctx):
+    """Scalar zero divisors (must raise ZeroDivisionError, operand untouched) and integer
+    spaces with non-integer field scalars (result not representable: must not be silently
+    wrong)."""
+    import odl
+    lines, batch = [], []
+    for sname, sp in [('rn3', odl.rn(3)), ('rn120', odl.rn(120)),
+                      ('pspace', odl.ProductSpace(odl.rn(2), odl.rn(3)))]:
+        for name in ('divS', 'idivS'):
+            x = rand_elem(sp, ctx.rng)
+            X = exact_list(flat(x))
+            try:
+                if name == 'divS':
+                    x / 0
+                else:
+                    x /= 0
+                status = 'ok'
+            except ZeroDivisionError:
+                status = 'raises'
+            except Exception as e:  # noqa
+                status = 'err:' + type(e).__name__
+            desc = {'kind': 'special', 'what': name + ' by scalar 0', 'space': sname}
+            ctx.case(('special', name, sname), sample=None)
+            ctx.hit('special/' + name + '0')
+            if status != 'raises' or exact_list(flat(x)) != X:
+                ctx.violation('elem op={} by scalar zero space={}'.format(name, sname),
+                              'expected ZeroDivisionError with the operand untouched, got {}'
+                              .format(status), desc)
+            lines.append('elemop op={} alias=0 c=0 n={} x={} y=-'.format(name, len(X), lv(X)))
+            batch.append((desc, status))
+    outs = core.run_driver('C01', lines)
+    for (desc, status), ans in zip(batch, outs):
+        if ans != status:
+            ctx.disagree(desc, status, ans)
+    # integer dtype x non-integer scalar of the (real) field
+    for n in (7, 128):
+        sp = odl.tensor_space(n, dtype='int64')
+        x = sp.element(np.arange(1, n + 1))
+        y = sp.element(np.arange(n, 0, -1) * 2 + 1)
+        for what, call in [('lincomb(0.5,x,0.5,y)', lambda: sp.lincomb(0.5, x, 0.5, y)),
+                           ('x * 0.5', lambda: x * 0.5), ('x + 0.5', lambda: x + 0.5)]:
+            exact = {'lincomb(0.5,x,0.5,y)': [Fraction(a + b, 2) for a, b in
+                                             zip(range(1, n + 1),
+                                                 [2 * k + 1 for k in range(n, 0, -1)])],
+                     'x * 0.5': [Fraction(a, 2) for a in range(1, n + 1)],
+                     'x + 0.5': [Fraction(2 * a + 1, 2) for a in range(1, n + 1)]}[what]
+            try:
+                res = call()
+                got = [Fraction(int(v)) for v in flat(res).tolist()]
+                status = 'ok' if got == exact else 'silently-wrong'
+            except Exception as e:  # noqa
+                status = 'raises:' + type(e).__name__
+            ctx.case(('special', 'int-nonint', n, what))
+            ctx.hit('special/int-nonint/' + status.split(':')[0])
+            if status == 'silently-wrong':
+                ctx.violation('int-dtype non-integer-scalar {} size={} silently truncated'
+                              .format(what, 'lt100' if n < 100 else 'ge100'),
+                              'result {} … is not the entry-wise value {} … (not representable '
+                              'in the dtype) and no error was raised'.format(
+                                  got[:3], [str(v) for v in exact[:3]]),
+                              {'kind': 'special', 'what': what, 'n': n})
+
+
 def regenerate(ctx):
-    changed = extract_lincomb.regenerate()
-    return [('extract(_lincomb_impl -> Gen/LincombTree.lean)', True,
-             'regenerated' if changed else 'unchanged')]
+    out = []
+    for name, mod in [('extract(_lincomb_impl, _blas_is_applicable -> Gen/LincombTree.lean)',
+                       extract_lincomb),
+                      ('extract(LinearSpace.lincomb checks -> Gen/LincombFront.lean)',
+                       extract_front)]:
+        try:
+            changed = mod.regenerate()
+            out.append((name, True, 'regenerated' if changed else 'unchanged'))
+        except Exception as e:  # noqa: grammar no longer matches the source
+            out.append((name, False, '{}: {}'.format(type(e).__name__, e)))
+    return out
 
 
 def thresholds():
@@ -913,7 +1105,7 @@ def run(ctx, deep=False):
     ctx.extra['thresholds'] = [small, medium]
     # --- lincomb core
     batch, lines = [], []
-    for c in lincomb_cases(ctx, small, medium):
+    for c in itertools.chain(leaf_plans(ctx, small, medium), lincomb_cases(ctx, small, medium)):
         line, status, post, problems, nontrivial = run_lincomb_case(c, small, medium)
         batch.append((c, line, status, post, problems, nontrivial))
         lines.append(line)
@@ -941,7 +1133,7 @@ def run(ctx, deep=False):
             if ans.startswith('ok'):
                 ctx.disagree(desc, status, ans[:200])
             continue
-        if not ans.startswith('ok r='):
+        if not (ans.startswith('ok r=') or ans.startswith('ok x=')):
             ctx.disagree(desc, 'ok', ans)
             continue
         mv = parse_cl(ans[len('ok r='):])
@@ -986,6 +1178,7 @@ def run(ctx, deep=False):
             ctx.disagree(desc, {'res': R[:6], 'x': XP[:6], 'y': YP[:6]}, ans[:300])
     # --- malformed calls
     run_front(ctx)
+    run_special(ctx)
     # --- product-space lincomb, all alias patterns
     pbatch, plines = [], []
     for c in plincomb_cases(ctx):
@@ -1022,7 +1215,7 @@ def search(ctx, broken):
             ctx.evaluations += 1
             if problems:
                 desc = {k: (str(v) if k in ('a', 'b', 'shape') else v) for k, v in c.items()
-                        if k != 'space'}
+                        if k != 'space' and not k.startswith('_')}
                 ctx.violation('lincomb regime={} dtype={} layout={} alias={} a={} b={}'.format(
                     regime_of(c['size'], small, medium), c['dtype'], c['layout'], c['alias'],
                     c['ca'], c['cb']), '; '.join(problems)[:500], desc)
